@@ -82,6 +82,21 @@ def check(ctx: Ctx, col: Collector, tier: str) -> None:
     (col.ok if okk else col.bad)("C12.STORES", f"{API_MOD}::API.to_json_file", repo.loc(API_MOD, jfi.node), "the file content is json.dump(s) of self.to_dict()" if okk else f"{[repr(e) for e in dumps]}",
                                  *([] if okk else ["the API file is not json.dump of to_dict()"]))
 
+    # float defaults come from FloatExpr.value: an overflowing literal (1e999) is inf, which json.dump writes as the non-JSON token Infinity
+    from ..core.ctx import HELPERS
+    finite_tests = []
+    for rel2, q in ((VISITOR, f"{VCLS}._get_parameter_type_and_default_value"), (HELPERS, "mypy_expression_to_python_value"), (API_MOD, "Parameter.to_dict"), (API_MOD, "API.to_json_file")):
+        fi2 = repo.maybe_function(rel2, q)
+        for n in ast.walk(fi2.node) if fi2 else []:
+            if isinstance(n, ast.Call) and ast.unparse(n.func) in ("math.isfinite", "math.isinf", "math.isnan", "isfinite", "isinf"):
+                finite_tests.append(f"{q}:{n.lineno}")
+    strict = any(e.kind == "call" and any(k == "allow_nan" and v == Const(False) for k, v in e.kwargs) for o in jouts for e in o.effects if e.target in ("json.dump", "json.dumps"))
+    okk = bool(finite_tests) or strict
+    (col.ok if okk else col.bad)("C12.STORES", f"{API_MOD}::API.to_json_file::finite-floats", repo.loc(API_MOD, jfi.node),
+                                 f"non-finite float defaults are recognised ({finite_tests[:2]})" if finite_tests else ("json.dump rejects non-finite floats" if strict else "float defaults reach json.dump unchecked; allow_nan is left on"),
+                                 *([] if okk else ["a float default that overflows (`def clip(x: float, upper: float = 1e999)`) is stored as inf and written as `\"default_value\": Infinity`: "
+                                                   "the API file is not valid JSON (RFC 8259); strict parsers reject it"]))
+
     # ------------------------------------------------------------------ PAIRING
     register_obligations(ctx, col, "C12.PAIRING", child_selection(ctx))
     lfi = repo.function(VISITOR, f"{VCLS}.leave_funcdef")
